@@ -33,6 +33,7 @@ EXPLANATION = (
     "hot-spot threshold is a non-strict comparison with fraction*max, each round is seeded at the arg-max of the remaining "
     "entries, labels increase by one per round and assigned entries are removed. Not decided: connectivity semantics, "
     "interpolation, solid angles.")
+EXPLANATION += (' R-C19-4: an attribute that several methods set to different values (the ansatz derivative of the element type) is per-type state: every method that calls a reader of it calls the matching writer on every path before (CFG dominance).')
 ASSUMPTIONS = [
     "pandas .loc/.isin/get_indexer are label based, numpy subscripts and .iloc are positional",
     "np.linalg.inv returns the inverse (non-degenerate element)",
